@@ -21,7 +21,7 @@ ASSUMPTIONS = ['axis arguments are in-range, non-negative, sorted and match the 
 REQUIRED_REACH = ['_tt_base:TT.norm', '_tt_base:TT.sum', '_extras:dot', '_extras:bilinear_form', '_aux_ops:bilinear_form_aux', '_tt_base:TT.reduce_dims']
 REQUIRED_COUNTS = {'history_value_checks': 200, 'norm/tensor/order1/plain': 1, 'norm/tensor/order>1/plain': 1, 'norm/operator/order1/plain': 1, 'norm/operator/order>1/plain': 1,
                    'norm/tensor/order1/tracked': 1, 'norm/tensor/order>1/tracked': 1, 'norm/operator/order1/tracked': 1, 'norm/operator/order>1/tracked': 1,
-                   'sum/tensor/all': 1, 'sum/tensor/partial': 1, 'sum/operator/all': 1, 'sum/operator/partial': 1, 'dot/full': 1, 'dot/partial': 1,
+                   'sum/tensor/all': 1, 'sum/tensor/partial': 1, 'sum/operator/all': 1, 'sum/operator/partial': 1, 'dot/full': 1, 'dot/partial': 1, 'sum/list-not-ascending': 1, 'dot/axis-not-ascending': 1,
                    'bilinear': 1, 'exact_comparisons': 50}
 LINE_FUNCS = ['TT.norm', 'TT.sum', 'dot', 'bilinear_form_aux']
 DT = ['f64', 'f64', 'f32', 'c128']
@@ -56,7 +56,8 @@ def cases(tier, seed):
             for sub in subs:
                 for r in range(12 if tier == 'quick' else 40):
                     N = gens.modes(rng, d, (1, 2, 3, 4), distinct=(r % 2 == 0))
-                    for form in (['list', 'int'] if sub is not None and len(sub) == 1 else ['list']):
+                    # a subset is a set: the list naming it may come in any order (reversed / rotated lists are 'list-rev' / 'list-rot')
+                    for form in (['list', 'int'] if sub is not None and len(sub) == 1 else ['list', ['list-rev', 'list-rot'][r % 2]] if sub is not None and r % 3 == 0 else ['list']):
                         cs.append({'gen': 'sum', 'N': N, 'M': gens.modes(rng, d, (1, 2, 3), distinct=False) if ttm else None,
                                    'R': gens.rank_profile(rng, d, 'rand', 3), 'axes': sub, 'form': form, 'dtype': DT[(r + d) % 4], 'vals': 'int'})
     # dot full and partial
@@ -64,7 +65,7 @@ def cases(tier, seed):
         for sub in [None] + subsets(d):
             for r in range(12 if tier == 'quick' else 40):
                 N = gens.modes(rng, d, (1, 2, 3, 4, 5), distinct=(r % 2 == 0))
-                cs.append({'gen': 'dot', 'N': N, 'Ra': gens.rank_profile(rng, d, 'rand', 3), 'axes': sub,
+                cs.append({'gen': 'dot', 'N': N, 'Ra': gens.rank_profile(rng, d, 'rand', 3), 'axes': sub, 'form': ['list', 'list-rev', 'list-rot', 'list'][r % 4] if sub is not None and len(sub) > 1 else 'list',
                            'Rb': gens.rank_profile(rng, d if sub is None else len(sub), 'rand', 3), 'dtype': ['f64', 'c128', 'f32', 'c128'][(r + d) % 4], 'vals': 'int'})
     # bilinear forms
     for i in range(1500 if tier == 'quick' else 15000):
@@ -172,6 +173,16 @@ def _cmp_reduced(ctx, key, what, out, ref, exact, u, scale):
     return compare(ctx, key, got.squeeze(), ref.squeeze(), exact, u, scale, what)
 
 
+def _order(axes, form):
+    """The same set of modes written in another order (the library documents the modes as a set: dot() matches b against sorted(axis))."""
+    axes = list(axes)
+    if form == 'list-rev':
+        return axes[::-1]
+    if form == 'list-rot':
+        return axes[1:] + axes[:1]
+    return axes
+
+
 def run_sum(case, ctx, g):
     dt = dn.dtype_of(case['dtype'])
     d = len(case['N'])
@@ -195,7 +206,9 @@ def run_sum(case, ctx, g):
     elif case['form'] == 'int':
         out = ctx.lib('TT.sum(int)', lambda t: t.sum(axes[0]), x)
     else:
-        out = ctx.lib('TT.sum(list)', lambda t: t.sum(list(axes)), x)
+        out = ctx.lib('TT.sum(list)', lambda t: t.sum(_order(axes, case['form'])), x)
+        if case['form'] != 'list':
+            ctx.count('sum/list-not-ascending')
     _cmp_reduced(ctx, key, what, out, ref, exact, dn.ueps(dt), srep)
     ctx.nontrivial(('sum', kind, tuple(case['N']), tuple(case['M'] or ()), tuple(case['R']), tuple(axes) if axes else None, case['form'], case['dtype']))
 
@@ -222,7 +235,9 @@ def run_dot(case, ctx, g):
     if axes is None:
         out = ctx.lib('dot', torchtt.dot, a, b)
     else:
-        out = ctx.lib('dot(axis)', torchtt.dot, a, b, list(axes))
+        out = ctx.lib('dot(axis)', torchtt.dot, a, b, _order(axes, case.get('form', 'list')))
+        if case.get('form', 'list') != 'list':
+            ctx.count('dot/axis-not-ascending')
     _cmp_reduced(ctx, key, what, out, ref, exact, dn.ueps(dt), scale)
     ctx.nontrivial(('dot', tuple(N), tuple(case['Ra']), tuple(axes) if axes else None, tuple(case['Rb']), case['dtype']))
 
